@@ -271,7 +271,7 @@ def run_case(case):  # noqa: C901
     if nexec >= cap:
         counters["assignment_cap_hit(%d)" % cap] += 1
     counters["assignments"] = nexec
-    return {"key": outs, "evaluations": nexec, "keys": [[outs, i] for i in range(nexec)],
+    return {"key": None, "evaluations": nexec, "keys": [[outs, i] for i in range(nexec)],
             "nontrivial": nexec > 1, "outcome": "explored" if not viol else "violation", "violations": viol[:6],
             "counters": dict(counters),
             "sample": {"program": outs, "assignments": nexec, "sites": len(site_terms), "max_dev": max_dev}}
